@@ -901,4 +901,113 @@ def vectorizeLM {σ δ ο : Type} (m : Machine σ (Item δ) ο) (inits : List σ
     Machine (VecSt σ) (Item (List δ)) (Item (List (Option ο))) :=
   { vectorizeM m 0 with init := ⟨inits, []⟩ }
 
+/-! ## Sum with Python's number types (`lena/math/elements.py:202-260`)
+
+`sumM` adds exact integers: it cannot tell the int `0` from the float `0.0`.  Python's `+` can: the sum of an int and
+a float is a float, and float addition is exact only up to 2^53 while int addition is always exact.  `tsumM` is the
+same transcription of `Sum` over numbers that carry their Python type (`int` or `float`); the values stay exact (the
+harness sends the typed model only histories in which no float addition rounds).  What it adds to `sumM`:
+`reset()` assigns the *int* `0` - a total that had become a float is an int again, as in `Sum()`. -/
+
+/-- a Python number of a case: its exact (scaled) value and whether its type is `float` (otherwise `int`) -/
+structure Num where
+  val : Int
+  isFloat : Bool
+  deriving DecidableEq, Repr
+
+/-- Python's `a + b` on ints and floats: a float iff one operand is a float -/
+def Num.add (a b : Num) : Num := ⟨a.val + b.val, a.isFloat || b.isFloat⟩
+
+structure TSumSt where
+  total : Num
+  ctx : Ctx
+  deriving DecidableEq, Repr
+
+/-- `Sum.fill`: `self._total += data; self._cur_context = context` -/
+def TSum.fill (s : TSumSt) (v : Item Num) : TSumSt := ⟨s.total.add v.data, v.context⟩
+
+/-- `Sum.compute` -/
+def TSum.compute (s : TSumSt) : Item Num := withCtx s.total s.ctx
+
+/-- `Sum.reset`: `self._total = 0` (the int zero, whatever the total was); `self._cur_context = {}` -/
+def TSum.reset (_ : TSumSt) : TSumSt := ⟨⟨0, false⟩, []⟩
+
+/-- `Sum(total=total0)`, numbers with their types -/
+def tsumM (total0 : Num) : Machine TSumSt (Item Num) (Item Num) where
+  init := ⟨total0, []⟩
+  fill s v := (TSum.fill s v, none)
+  compute s := (s, .ok [TSum.compute s])
+  reset := TSum.reset
+
+/-! ## VarianceMeanCount around explicit sum elements (`lena/math/elements.py:263-396`)
+
+`VarianceMeanCount(sum_sq, sum_)`: the two sums are FillCompute elements of their own (`Sum(total)` with a start,
+an adapter around one, ...).  "If they both can be reset, this object has also a reset() method": `_reset` resets
+`sum_sq`, then `sum_`, then its own count and context.  `vmcM` is the instance with two `Sum()`. -/
+
+structure VmcOverSt (σ₁ σ₂ : Type) where
+  sumSq : σ₁
+  sum : σ₂
+  count : Nat
+  ctx : Ctx
+
+/-- `fill`: `self._sum_sq.fill(data**2); self._sum.fill(data); self._count += 1; self._cur_context = context` (an
+exception of a sum's `fill` leaves the rest as it is) -/
+def VmcOver.fill {σ₁ σ₂ : Type} (sq : Machine σ₁ (Item Int) (Item Int)) (sm : Machine σ₂ (Item Int) (Item Int))
+    (s : VmcOverSt σ₁ σ₂) (v : Item Int) : VmcOverSt σ₁ σ₂ × Option Err :=
+  let r1 := sq.fill s.sumSq ⟨v.data ^ 2, none⟩
+  match r1.2 with
+  | some e => (⟨r1.1, s.sum, s.count, s.ctx⟩, some e)
+  | none =>
+    let r2 := sm.fill s.sum ⟨v.data, none⟩
+    match r2.2 with
+    | some e => (⟨r1.1, r2.1, s.count, s.ctx⟩, some e)
+    | none => (⟨r1.1, r2.1, s.count + 1, v.context⟩, none)
+
+/-- `suml = list(el.compute()); assert len(suml) == 1; sum_ = suml[0]`, used as a number (a `(data, context)` pair
+cannot be divided: Python's `TypeError`) -/
+def VmcOver.one (r : Except Err (List (Item Int))) : Except Err Int :=
+  match r with
+  | .error e => .error e
+  | .ok [x] => match x.ctx with
+    | none => .ok x.data
+    | some _ => .error .pyTypeError
+  | .ok _ => .error .assertionError
+
+/-- `compute`: the count check, `sum_sq.compute()`, `sum_.compute()`, then the formula of `Vmc.compute` -/
+def VmcOver.compute {σ₁ σ₂ : Type} (sq : Machine σ₁ (Item Int) (Item Int)) (sm : Machine σ₂ (Item Int) (Item Int))
+    (cfg : VmcCfg) (s : VmcOverSt σ₁ σ₂) : VmcOverSt σ₁ σ₂ × Except Err (List (Item Vmc)) :=
+  if s.count = 0 then
+    (s, if cfg.passOnEmpty then .ok [] else .error .zeroDivision)
+  else
+    let r1 := sq.compute s.sumSq
+    match VmcOver.one r1.2 with
+    | .error e => (⟨r1.1, s.sum, s.count, s.ctx⟩, .error e)
+    | .ok ssq =>
+      let r2 := sm.compute s.sum
+      let s' : VmcOverSt σ₁ σ₂ := ⟨r1.1, r2.1, s.count, s.ctx⟩
+      match VmcOver.one r2.2 with
+      | .error e => (s', .error e)
+      | .ok sm_ =>
+        let count : Rat := (s.count : Rat)
+        let meanSq : Rat := (ssq : Rat) / count
+        let mean : Rat := (sm_ : Rat) / count
+        let var : Rat := meanSq - mean ^ 2
+        if cfg.corrected then
+          if s.count = 1 then (s', .error .zeroDivision)
+          else (s', .ok [withCtx ⟨var * (count / (count - 1)), mean, s.count⟩ s.ctx])
+        else (s', .ok [withCtx ⟨var, mean, s.count⟩ s.ctx])
+
+/-- `_reset`: `self._sum_sq.reset(); self._sum.reset(); self._count = 0; self._cur_context = {}` -/
+def VmcOver.reset {σ₁ σ₂ : Type} (sq : Machine σ₁ (Item Int) (Item Int)) (sm : Machine σ₂ (Item Int) (Item Int))
+    (s : VmcOverSt σ₁ σ₂) : VmcOverSt σ₁ σ₂ := ⟨sq.reset s.sumSq, sm.reset s.sum, 0, []⟩
+
+/-- `VarianceMeanCount(sum_sq, sum_, corrected, pass_on_empty)` -/
+def vmcOverM {σ₁ σ₂ : Type} (sq : Machine σ₁ (Item Int) (Item Int)) (sm : Machine σ₂ (Item Int) (Item Int))
+    (cfg : VmcCfg) : Machine (VmcOverSt σ₁ σ₂) (Item Int) (Item Vmc) where
+  init := ⟨sq.init, sm.init, 0, []⟩
+  fill := VmcOver.fill sq sm
+  compute := VmcOver.compute sq sm cfg
+  reset := VmcOver.reset sq sm
+
 end Lena.C09
